@@ -34,6 +34,10 @@ type raftCluster struct {
 	leader string
 	stubs  []*raftStub
 	maxVid needle.VolumeId
+	// afterApply (one shot) runs inside Do, after the command has been applied
+	// and before Do returns to its caller: whatever the harness schedules here
+	// happens while the raft command is still in flight for the caller.
+	afterApply func()
 }
 
 type raftStub struct {
@@ -66,6 +70,10 @@ func (r *raftStub) Do(c raft.Command) (interface{}, error) {
 		if s == r {
 			ret, err = x, e
 		}
+	}
+	if h := r.c.afterApply; h != nil {
+		r.c.afterApply = nil
+		h()
 	}
 	return ret, err
 }
